@@ -2,7 +2,7 @@
 from vlib import run_native_enum, run_verus_property, run_verus_multi, run_kani_property, run_compile_snippets
 
 PRELUDE = ["00_prelude.vrs"]
-STACK = ["10_stack.vrs"]
+STACK = ["10_stack.vrs", "11_try_extend.vrs"]
 MAIN = ["99_main.vrs"]
 
 STD = ["05_std.vrs"]
@@ -288,9 +288,10 @@ PROPS = {
         "steps": [run_verus_property, run_kani_property], "kani": KANI["C04"],
         "level": "proof",
         "explanation": "Total functional contracts on the real bodies of Stack<T>::{set_max_stack_size,max_stack_size,size,is_empty,"
-                       "is_full,top,top2,top3,pop,pop2,pop3,discard,push} (generic T, unbounded length, every capacity); the history "
+                       "is_full,top,top2,top3,pop,pop2,pop3,discard,push,push_many,try_extend} (generic T, unbounded length, every capacity); the history "
                        "quantifier reduces to the per-call contracts because each contract determines the post-state completely.",
-        "assumptions": ["Vec<T> behaves as vstd specifies (last/get/pop/push/len)",
+        "assumptions": ["Vec<T> behaves as vstd specifies (last/get/pop/push/len/truncate)",
+                        "the std iterator / slice calls inside push_many and try_extend behave as their stand-in contracts say (specs/10_stack.vrs, 11_try_extend.vrs)",
                         "std::any::type_name returns some &'static str"],
     },
 }
